@@ -15,12 +15,14 @@ NOT_BUILT = 'model, theorems and correspondence not built yet (DESIGN.md section
 def main():
     props = [json.loads(l) for l in (VERIF / 'properties.jsonl').read_text().splitlines() if l.strip()]
     checks, na = [], []
+    # integrated (reviewed, run on the clean tree for several seeds) properties only; maintained by hand
+    claimed = set((VERIF / 'tools' / 'claimed.txt').read_text().split())
     reasons = json.loads((VERIF / 'tools' / 'not_applicable.json').read_text()) if (VERIF / 'tools' / 'not_applicable.json').exists() else {}
     for p in props:
         pid = p['id']
         f = VERIF / 'harness' / 'props' / f'{pid.lower()}.py'
         prop = None
-        if f.exists():
+        if f.exists() and pid in claimed:
             mod = importlib.import_module(f'harness.props.{pid.lower()}')
             if getattr(mod, 'READY', False):
                 prop = mod.PROP
